@@ -129,9 +129,11 @@ def _hb_dir(parent_pid):
 def _heartbeat(case, part_name):
     """Tell the parent which case this process is working on: the regex engine neither handles signals nor
     releases the GIL, so a hang inside it can only be detected (and ended) from another process."""
+    d = os.environ.get('VF_C01_HEARTBEAT_DIR')
+    if not d:
+        return                     # no monitor is watching (replay, witness run)
     f = _hb['file']
     if f is None or _hb.get('pid') != os.getpid():
-        d = _hb_dir(os.getppid())
         os.makedirs(d, exist_ok=True)
         f = _hb['file'] = open(os.path.join(d, '%d.json' % os.getpid()), 'w')
         _hb['pid'] = os.getpid()
@@ -146,6 +148,8 @@ class HangMonitor:
 
     def __init__(self):
         self.dir = _hb_dir(os.getpid())
+        os.makedirs(self.dir, exist_ok=True)
+        os.environ['VF_C01_HEARTBEAT_DIR'] = self.dir      # inherited by the forked workers
         self._stop = threading.Event()
         self.thread = threading.Thread(target=self._loop, daemon=True)
         self.thread.start()
@@ -183,6 +187,7 @@ class HangMonitor:
     def stop(self):
         import shutil
         self._stop.set()
+        os.environ.pop('VF_C01_HEARTBEAT_DIR', None)
         shutil.rmtree(self.dir, ignore_errors=True)
 
 
